@@ -151,6 +151,26 @@ def run(ctx):
     if sanit:
         ctx.counters["sanitizer_variant_%s_ops" % ctx.variant] = nh * nops
         return
+    # ---------------- a library with more rows than 2^17, evaluated in 2-3 batches (each batch far larger than 2^16 rows and
+    # not starting at row 0) against the in-memory values
+    if ctx.shard == 0 and ctx.replay is None:
+        rngL = ctx.rng(4242)
+        pbL = session.make_problem(rngL, N=50, profile="moderate", n_offsets=0, poly_trend=1)
+        NL = 140001
+        reps = NL // 50 + 1
+        rowsL = {k_: np.tile(np.asarray(v_), reps)[:NL] for k_, v_ in pbL.rows.items()}
+        rowsL["P"] = rowsL["P"] * (1 + np.arange(NL) * 1e-9)          # unique tags
+        libL = session.gen.build_samples(rowsL, units={"s": pbL.du})
+        baseL = np.asarray(TheJoker(pbL.prior).marginal_ln_likelihood(pbL.data, libL, in_memory=True))
+        for nbL in (2, 3):
+            gotL = np.asarray(TheJoker(pbL.prior, tempfile_path=ctx.tmpdir).marginal_ln_likelihood(pbL.data, libL, n_batches=nbL))
+            ctx.evaluations += 1
+            ctx.distinct.add(repr(("large-library", nbL)))
+            if gotL.shape != baseL.shape or bits(gotL) != bits(baseL):
+                nd = int(np.sum(gotL != baseL)) if gotL.shape == baseL.shape else -1
+                ctx.violation("path-values-differ", "a %d-row library through the cache in %d batches: %s of the values differ from the "
+                              "in-memory ones (first at row %s)" % (NL, nbL, nd, int(np.argmax(gotL != baseL)) if nd > 0 else "?"),
+                              dict(N=NL, n_batches=nbL))
     # ---------------- API paths
     n = ctx.n(14, 60)
     for i in ctx.cases(n):
